@@ -106,3 +106,75 @@ func (s *sharer) slices(fa, fb reflect.Value) {
 	short.Set(arr.Slice(0, n))
 	s.n++
 }
+
+// AliasLeafPointers makes scalar leaves of one tree that hold equal values of one type share
+// a single pointer (as happens when one `ygot.String("x")` result is assigned to several
+// fields, or when a struct is copied by value). The content of the tree is unchanged; code
+// that updates a leaf must store a new pointer, never write through the old one. Returns the
+// number of leaves rewired.
+func AliasLeafPointers(root interface{}, pick func() bool) int {
+	type slot struct{ f reflect.Value }
+	groups := map[string][]reflect.Value{}
+	var order []string
+	var walk func(v reflect.Value)
+	walk = func(v reflect.Value) {
+		if v.Kind() != reflect.Ptr || v.IsNil() || v.Elem().Kind() != reflect.Struct {
+			return
+		}
+		s := v.Elem()
+		t := s.Type()
+		for i := 0; i < t.NumField(); i++ {
+			f := s.Field(i)
+			switch Classify(t.Field(i)) {
+			case FLeaf:
+				if f.Kind() == reflect.Ptr && !f.IsNil() && f.Elem().Kind() != reflect.Struct {
+					k := f.Type().String() + "=" + Render(f)
+					if _, ok := groups[k]; !ok {
+						order = append(order, k)
+					}
+					groups[k] = append(groups[k], f)
+				}
+			case FContainer:
+				walk(f)
+			case FList:
+				if f.IsNil() {
+					continue
+				}
+				keys := f.MapKeys()
+				sortValues(keys)
+				for _, k := range keys {
+					walk(f.MapIndex(k))
+				}
+			case FOrderedList:
+				if f.IsNil() {
+					continue
+				}
+				st := OrderedInternals(f)
+				if !st.OK {
+					continue
+				}
+				for j := 0; j < st.Keys.Len(); j++ {
+					if ev := st.ValueMap.MapIndex(st.Keys.Index(j)); ev.IsValid() {
+						walk(ev)
+					}
+				}
+			case FUnkeyedList:
+				for j := 0; j < f.Len(); j++ {
+					walk(f.Index(j))
+				}
+			}
+		}
+	}
+	walk(reflect.ValueOf(root))
+	n := 0
+	for _, k := range order {
+		fs := groups[k]
+		for i := 1; i < len(fs); i++ {
+			if pick() {
+				fs[i].Set(fs[0])
+				n++
+			}
+		}
+	}
+	return n
+}
